@@ -305,6 +305,10 @@ func (c C11) Run(t *tape.Tape, opt core.RunOpt) (res core.Result) {
 		res.Count("probe_depth_limit_changed_between_calls", 1)
 	}
 	growAt := -1
+	regAt := -1
+	if strat == workload.StratReflect && strings.Contains(req.Src, "echo(") && t.Bool(2, 3) {
+		regAt = 1 + t.Draw(ncalls-1)
+	}
 	if strings.Contains(req.Src, "sized(") && t.Bool(2, 3) {
 		growAt = 1 + t.Draw(ncalls-1)
 	}
@@ -342,6 +346,16 @@ func (c C11) Run(t *tape.Tape, opt core.RunOpt) (res core.Result) {
 			// (small values cut the response off: a fresh parse is cut off the same)
 			ggql.MaxResolveDepth = []int{2, 3, 4, 6, 100}[t.Draw(5)]
 			hist = append(hist, fmt.Sprintf("ggql.MaxResolveDepth = %d", ggql.MaxResolveDepth))
+		}
+		if i == regAt {
+			// a late registration: the field is served by another method from now
+			// on, whose parameters come in another order
+			// (refused while no value of the type has been seen yet: nothing changes then)
+			err := z.Root.RegisterField("Query", "echo", "EchoRev", "n", "s")
+			hist = append(hist, fmt.Sprintf(`RegisterField("Query", "echo", "EchoRev", "n", "s") -> %v`, err))
+			if err == nil {
+				res.Count("probe_field_registered_between_calls", 1)
+			}
 		}
 		if i == growAt {
 			// the schema grows between two calls: the enum gains a value that the
